@@ -41,6 +41,8 @@ func init() {
 			"a waiter of a coalesced dial can leave through its own context and (context provenance) does not receive the dialling subscriber's cancellation; a connection unregisters only itself and an empty connection is closed; " +
 			"the closed flag of an idle connection is flipped atomically with the admission test of subscribe and a refused admission is retried instead of returned. It does not decide message order, idle-period timing or conns→0 over histories.",
 		Mutants: []Mutant{
+			{Name: "subscribe message written under the subscriber's own context (the repaired defect F20)", File: wsConnGo, Rule: "C18-R9", Key: "wsConnection.subscribe/Subscribe-under-connection-context",
+				Old: "\tsubscribeCtx, subscribeCancel := context.WithTimeout(c.ctx, c.writeTimeout)", New: "\tsubscribeCtx, subscribeCancel := context.WithTimeout(ctx, c.writeTimeout)"},
 			{Name: "failed subscribe removes its table entry with a bare delete", File: "v2/pkg/engine/datasource/graphql_datasource/subscriptionclient/transport/ws_conn.go", Rule: "C18-R8", Key: "wsConnection.subscribe/delete-from-subs",
 				Old: "\t\tc.removeSub(id)\n\t\treturn nil, err\n", New: "\t\tc.subsMu.Lock()\n\t\tdelete(c.subs, id)\n\t\tc.subsMu.Unlock()\n\t\treturn nil, err\n"},
 			{Name: "headers dropped from the connection key", File: wsTransportGo, Rule: "C18-R1", Key: "key<-Headers",
@@ -95,6 +97,7 @@ func init() {
 }
 
 func runC18(r *fw.Run) {
+	defer c18SharedWritesUnderConnectionContext(r)
 	p := r.Prog
 	for _, a := range []string{c18T, c18P, c18C} {
 		if p.Pkg(a) == nil {
@@ -1771,4 +1774,74 @@ func c18WhoMayRemoveSubs(r *fw.Run) {
 			"a subscription is removed from the routing table outside removeSub: when it was the last one nothing starts the empty/idle close, so the upstream connection outlives its last subscription for ever")
 	})
 	r.Expect("C18-R8", "deletes from wsConnection.subs", n, 1)
+}
+
+// c18SharedWritesUnderConnectionContext (R9): the WebSocket connection is shared by many subscribers, and the WebSocket
+// library closes the whole connection when the context of an in-flight write ends. Every write on a shared wsConnection
+// (a call of a protocol.Protocol / protocol.Pinger method that takes the connection) therefore runs under a context that
+// belongs to the connection (its own ctx) or to nobody (context.Background), never under a context that derives from a
+// context parameter of the function — that is one subscriber's, and its cancellation would tear the connection down for all.
+func c18SharedWritesUnderConnectionContext(r *fw.Run) {
+	p := r.Prog
+	r.Rule("C18-R9", "every write on a shared wsConnection (protocol Subscribe / Unsubscribe / Ping / Pong on c.conn) runs under the connection's own context or a background context, never under a context derived from a caller's context parameter (one subscriber's cancellation must not close the connection of all)")
+	pk := p.Pkg("subtransport")
+	if pk == nil {
+		r.Error("C18-R9: transport package not loaded")
+		return
+	}
+	info := pk.TypesInfo
+	n := 0
+	for _, fi := range p.Funcs("subtransport") {
+		if fi.Decl.Recv == nil || !strings.HasPrefix(fi.Name(), "wsConnection.") {
+			continue
+		}
+		sig := fi.Obj.Type().(*types.Signature)
+		ctxParams := map[types.Object]bool{}
+		for i := 0; i < sig.Params().Len(); i++ {
+			if sig.Params().At(i).Type().String() == "context.Context" {
+				ctxParams[sig.Params().At(i)] = true
+			}
+		}
+		var d *fw.Deriver
+		fw.WalkAll(fi.Decl.Body, func(nd ast.Node) bool {
+			c, ok := nd.(*ast.CallExpr)
+			if !ok || len(c.Args) < 2 {
+				return true
+			}
+			fn := fw.Callee(info, c)
+			if fn == nil {
+				return true
+			}
+			fsig, _ := fn.Type().(*types.Signature)
+			if fsig == nil || fsig.Recv() == nil {
+				return true
+			}
+			rn := fw.RecvName(fsig.Recv().Type())
+			if rn != "Protocol" && rn != "Pinger" {
+				return true
+			}
+			// a call that takes the shared socket
+			takesConn := false
+			for _, a := range c.Args {
+				if fw.IsFieldSel(info, a, "subtransport", "wsConnection", "conn") {
+					takesConn = true
+				}
+			}
+			if !takesConn || fn.Name() == "Read" {
+				return true
+			}
+			n++
+			if d == nil {
+				d = fw.NewPureDeriver(fi)
+			}
+			fromCaller := d.Derives(c.Args[0], func(e ast.Expr) bool {
+				id, ok := e.(*ast.Ident)
+				return ok && ctxParams[info.Uses[id]]
+			})
+			r.Check(!fromCaller, "C18-R9", fi.Name()+"/"+fn.Name()+"-under-connection-context", p.Pos(c.Pos()), rn+"."+fn.Name()+" on the shared socket in "+fi.Name()+" runs under the connection's (or a background) context",
+				"the message is written under a context that derives from a context parameter — one subscriber's: when that subscriber's context ends during (or before) the write the WebSocket library closes the whole connection, and every other subscriber that shares it receives a connection error for something it did not do")
+			return true
+		})
+	}
+	r.Expect("C18-R9", "writes on the shared socket", n, 4)
 }
